@@ -769,8 +769,8 @@ def build_programs(tier):
                 add(n)
     # three-operand broadcasting with a number literal in every position (index::broadcast_size: the size type of the FIRST operand
     # survives only next to operands of size ct<1>): first array fixed-size / hybrid / dynamic, second array stretches the result
-    firsts = ('cs', 'fdf', 'fdh') if tier == 'quick' else ('cs', 'fx', 'fdf', 'fdh', 'cl', 'cld', 'fd', 'bd', 'dy')
-    seconds = ('dy', 'fdf') if tier == 'quick' else ('dy', 'fd', 'bd', 'fdf', 'fdh', 'cs', 'cl')
+    firsts = ('cs', 'fdf', 'fdh') if tier == 'quick' else ('cs', 'fx', 'fdf', 'fdh', 'cl', 'dy')
+    seconds = ('dy', 'fdf') if tier == 'quick' else ('dy', 'fd', 'fdf', 'cs')
     for k1 in firsts:
         for k2 in seconds:
             for n in binary_variants([op_where3, op_bcast3], Leaf(k1, (2, 1)), Leaf(k2, (7,))):
